@@ -66,6 +66,9 @@ func init() {
 		"(reflect.rtype).Out":             ext۰reflect۰rtype۰Out,
 		"(reflect.rtype).Size":            ext۰reflect۰rtype۰Size,
 		"(reflect.rtype).String":          ext۰reflect۰rtype۰String,
+		"(reflect.rtype).Comparable":      ext۰reflect۰rtype۰Comparable,
+		"(reflect.rtype).Name":            ext۰reflect۰rtype۰Name,
+		"(reflect.rtype).PkgPath":         ext۰reflect۰rtype۰PkgPath,
 		"bytes.Equal":                     ext۰bytes۰Equal,
 		"bytes.IndexByte":                 ext۰bytes۰IndexByte,
 		"fmt.Sprint":                      ext۰fmt۰Sprint,
